@@ -3,7 +3,7 @@ import json
 from vlib import Violation, ToolError, log
 
 RULE = ("events = toroidal_cover of every euclidean 2-D symbol up to a size bound; pseudo_toroidal_cover of the 17 corpus "
-        "symbols and of all 3-D symbols of the domain up to a size bound (quick: seeded sample), each with a renumbering "
+        "symbols and of all 3-D symbols of the domain with <= 3 chambers (thorough: plus a seeded sample of 4 chambers), each with a renumbering "
         "and the dual; non-trivial = event whose cover has >= 2 sheets")
 
 
@@ -14,9 +14,9 @@ def run(ctx):
                "(fundamental_group is C09's responsibility)")
     ev = ctx.work / "events.ndjson"
     if ctx.quick:
-        ctx.dsv("C15", "drive", "--out", ev, "--max2d", 5, "--max3d", 2, "--permille", 600, timeout=7200)
+        ctx.dsv("C15", "drive", "--out", ev, "--max2d", 5, "--max3d", 3, "--permille", 1000, timeout=7200)
     else:
-        ctx.dsv("C15", "drive", "--out", ev, "--max2d", 6, "--max3d", 3, "--permille", 1000, timeout=14400)
+        ctx.dsv("C15", "drive", "--out", ev, "--max2d", 6, "--max3d", 4, "--permille", 150, timeout=14400)
     for ln in open(ev):
         e = json.loads(ln)
         if "cov" in e and e["cov"]["n"] > e["sym"]["n"]:
